@@ -1,13 +1,20 @@
 #!/usr/bin/env python3
 """Copies confirmed seeded changes from /tmp/seed-out into /verif/seeded/<Cxx>-<k>/ (patch.diff, demo.*, meta.json)."""
-import glob, json, os, shutil
-for res in sorted(glob.glob("/var/tmp/vf-confirm-logs/*.result")):
-    sid = os.path.basename(res)[:-7]          # C03-1
+import glob, json, os, shutil, sys
+# wave 1: /tmp/seed-out -> seeded/Cxx-1,2 ; wave 2: /tmp/seed2-out -> seeded/Cxx-3,4
+WAVES = [("/var/tmp/vf-confirm-logs", "/tmp/seed-out", 0), ("/var/tmp/vf-confirm2-logs", "/tmp/seed2-out", 2)]
+items = []
+for logs, out, off in WAVES:
+    for res in sorted(glob.glob(logs + "/*.result")):
+        items.append((res, out, off))
+for res, out, off in items:
+    sid0 = os.path.basename(res)[:-7]          # C03-1
     line = open(res).read().strip()
+    prop, k = sid0.split("-")
+    sid = "%s-%d" % (prop, int(k) + off)
     if not line.startswith("exit=0"):
-        print("NOT CONFIRMED", sid, line); continue
-    prop, k = sid.split("-")
-    src = "/tmp/seed-out/%s/%s" % (prop, k)
+        print("NOT CONFIRMED", sid, "(", res, ")", line); continue
+    src = "%s/%s/%s" % (out, prop, k)
     dst = "/verif/seeded/%s" % sid
     if os.path.isdir(dst):
         continue
